@@ -36,6 +36,11 @@ pub fn all_props() -> Vec<Box<dyn framework::Prop>> {
                 id: "C18",
                 parts: vec![Box::new(p), Box::new(props_c02::c18_t())],
             })),
+            // C13 = sequences (Engine S) + conservation under threads (Engine T)
+            "C13" => v.push(Box::new(framework::Composite {
+                id: "C13",
+                parts: vec![Box::new(p), Box::new(props_c02::c13_t())],
+            })),
             _ => v.push(Box::new(p)),
         }
     }
